@@ -9,17 +9,18 @@ IVS = "list[tuple[int,int]]"
 CLASS_HOME = {"ProfileFeatureCounter": "src/long_read_counter.py", "FeatureInfo": "src/gene_info.py",
               "AbstractReadGrouper": "src/read_groups.py"}
 
-record("FeatureInfoP", {"id": "int", "start": "int", "end": "int"})
+# the id of a feature row is the feature itself (chromosome, start, end, strand)
+record("FeatureInfoP", {"id": "tuple[str,int,int,str]", "start": "int", "end": "int"})
 record("ProfileFeatureCounter", {
-    "inclusion_feature_counter": "defaultdict[int,rec:IncrementalDict,'new']",
-    "exclusion_feature_counter": "defaultdict[int,rec:IncrementalDict,'new']",
-    "feature_name_dict": "dict[int,str]", "group_numeric_ids": "dict[str,int]", "current_group_id": "int"})
+    "inclusion_feature_counter": "defaultdict[tuple[str,int,int,str],rec:IncrementalDict,'new']",
+    "exclusion_feature_counter": "defaultdict[tuple[str,int,int,str],rec:IncrementalDict,'new']",
+    "feature_name_dict": "dict[tuple[str,int,int,str],str]", "group_numeric_ids": "dict[str,int]", "current_group_id": "int"})
 
 contract("src/gene_info.py:FeatureInfo.to_str", {"self": "rec:FeatureInfoP"}, returns="str", trusted=True, props=[], ensures=[], native=False,
          note="string formatting of the feature row; content covered by the bounded check C13.recount")
 
 
-@spec("defaultdict[int,rec:IncrementalDict,'new'], int, int -> real")
+@spec("defaultdict[tuple[str,int,int,str],rec:IncrementalDict,'new'], tuple[str,int,int,str], int -> real")
 def pc(fc, f, g):
     return fc[f].data[g] if (f in fc and g in fc[f].data) else 0
 
@@ -39,8 +40,8 @@ def _gen_profile(rng, n):
         c.group_numeric_ids = {g: i + 1 for i, g in enumerate(groups)}
         c.current_group_id = len(groups) + 1
         k = rng.randint(0, 5)
-        ids = rng.sample(range(1, 20), k)
-        fmap = [types.SimpleNamespace(id=i, start=10 * i, end=10 * i + 5, to_str=(lambda i=i: "f%d" % i)) for i in ids]
+        ids = [("chr1", 10 * i, 10 * i + 5, rng.choice("+-")) for i in rng.sample(range(1, 20), k)]
+        fmap = [types.SimpleNamespace(id=i, start=i[1], end=i[2], to_str=(lambda i=i: "f%d" % i[1])) for i in ids]
         for i in ids:
             if rng.random() < .4:
                 c.inclusion_feature_counter[i].inc(rng.randint(1, 2), rng.randint(1, 3))
@@ -57,7 +58,7 @@ contract(L + "ProfileFeatureCounter.add_read_info_from_profile",
          modifies=["self.inclusion_feature_counter", "self.exclusion_feature_counter", "self.feature_name_dict", "self.group_numeric_ids",
                    "self.current_group_id"],
          requires=["len(gene_feature_profile) == len(feature_property_map)",
-                   # feature ids of one gene_info are pairwise distinct (FeatureInfo draws them from a counter)
+                   # the features of one gene_info are pairwise distinct (FeatureProfiles.features is a duplicate-free list), hence so are their ids
                    "all(feature_property_map[a].id != feature_property_map[b].id for a in range(len(feature_property_map)) for b in range(a + 1, len(feature_property_map)))",
                    # group ids handed out so far are distinct and below the next free id
                    "all(self.group_numeric_ids[g] < self.current_group_id for g in self.group_numeric_ids)",
@@ -95,7 +96,7 @@ contract(L + "ProfileFeatureCounter.add_read_info_from_profile",
              "all(pc(self.exclusion_feature_counter, f, h) == pc(old(self.exclusion_feature_counter), f, h) "
              "for f in self.exclusion_feature_counter for h in self.exclusion_feature_counter[f].data "
              "if h != group_id or not any(feature_property_map[i].id == f for i in range(len(feature_property_map))))"],
-             "locals": {"feature_id": "int"}}},
+             "locals": {"feature_id": "tuple[str,int,int,str]"}}},
          gen=_gen_profile, shards=6, timeout=30000)
 
 
@@ -460,3 +461,29 @@ def c13_islands(tier, rng):
     if not rows:
         viol.append({"obligation": "C13.one_row_per_feature.nontrivial", "inputs": None, "observed": "no count rows", "required": "rows", "undecided": True})
     return {"cases": len(rows), "bound": "1 pipeline run, 5 reads in 2 islands", "violations": viol, "samples": [{"rows": len(rows)}]}
+
+
+# ---- the id of a feature row: a function of the feature, so every GeneInfo that contains the feature counts it in the same row ----------------
+record("FeatureInfoFull", {"id": "tuple[str,int,int,str]", "chr_id": "str", "start": "int", "end": "int", "strand": "str", "type": "str",
+                           "gene_ids": "list[str]"})
+
+
+def _fi_native(argmap):
+    gi = native.repo_import("src/gene_info.py")
+    argmap["self"] = gi.FeatureInfo.__new__(gi.FeatureInfo)
+    return argmap
+
+
+contract("src/gene_info.py:FeatureInfo.__init__",
+         {"self": "rec:FeatureInfoFull", "chr_id": "str", "start": "int", "end": "int", "strand": "str", "type": "str", "gene_ids": "list[str]"},
+         returns="none", props=["C13"],
+         modifies=["self.id", "self.chr_id", "self.start", "self.end", "self.strand", "self.type", "self.gene_ids"],
+         # a reader of the count table identifies a row by chromosome, coordinates and strand: the key under which reads are counted is
+         # exactly that, independently of when and for which read region the object was created
+         ensures=["self.id == (chr_id, start, end, strand)",
+                  "self.chr_id == chr_id and self.start == start and self.end == end and self.strand == strand and self.type == type",
+                  "self.gene_ids == gene_ids"],
+         native_args=_fi_native,
+         gen=lambda rng, n: ({"self": None, "chr_id": rng.choice(["chr1", "chrX"]), "start": rng.randint(1, 50), "end": rng.randint(50, 90),
+                              "strand": rng.choice(["+", "-", "+-"]), "type": rng.choice(["X", "TU", "IS"]), "gene_ids": ["g%d" % rng.randint(1, 3)]}
+                             for _ in range(n)))
